@@ -106,6 +106,30 @@ func genKeys() {
 	}
 }
 
+// publicOnly offers a public key its holder cannot sign for (the public half of somebody else's key): the server
+// is asked whether the key would be acceptable, the signature that follows is worthless.
+type publicOnly struct{ pub ssh.PublicKey }
+
+func (p publicOnly) PublicKey() ssh.PublicKey { return p.pub }
+func (p publicOnly) Sign(io.Reader, []byte) (*ssh.Signature, error) {
+	return &ssh.Signature{Format: "none@example.net", Blob: make([]byte, 64)}, nil
+}
+
+// signersOf: the keys a client offers on ONE connection, in order.
+func signersOf(key string) []ssh.Signer {
+	borrowed := publicOnly{sshKeys["listed-ed25519"].PublicKey()}
+	switch key {
+	case "borrowed-then-unlisted":
+		return []ssh.Signer{borrowed, sshKeys["unlisted-ed25519"]}
+	case "unlisted-then-borrowed":
+		return []ssh.Signer{sshKeys["unlisted-ecdsa"], borrowed, sshKeys["unlisted-ed25519"]}
+	}
+	if s := sshKeys[key]; s != nil {
+		return []ssh.Signer{s}
+	}
+	return nil
+}
+
 func sshHandler(w *workerCtx, line []byte) (any, error) {
 	var s sshScn
 	if err := json.Unmarshal(line, &s); err != nil {
@@ -203,11 +227,11 @@ func sshHandler(w *workerCtx, line []byte) (any, error) {
 		return nil, werr
 	}
 	defer watch.close()
-	signer := sshKeys[s.Key]
-	if signer == nil {
+	signers := signersOf(s.Key)
+	if signers == nil {
 		return nil, fmt.Errorf("no key %q", s.Key)
 	}
-	ccfg := &ssh.ClientConfig{User: "x", Auth: []ssh.AuthMethod{ssh.PublicKeys(signer)}, HostKeyCallback: ssh.InsecureIgnoreHostKey(), Timeout: 5 * time.Second}
+	ccfg := &ssh.ClientConfig{User: "x", Auth: []ssh.AuthMethod{ssh.PublicKeys(signers...)}, HostKeyCallback: ssh.InsecureIgnoreHostKey(), Timeout: 5 * time.Second}
 	client, err := ssh.Dial("tcp", addr, ccfg)
 	if err != nil {
 		obs.HandshakeErr = err.Error()
